@@ -14,20 +14,20 @@ MUTANTS = [
  ('c13_mahony_bias_windup', 'C13', 'ahrs/filters/mahony.py', "            m_norm = np.linalg.norm(mag)\n            if m_norm == 0:\n                return self.updateIMU(q, gyr, acc)", "            m_norm = np.linalg.norm(mag)\n            if m_norm == 0:\n                self.b += self.k_P * np.copy(gyr) * dt\n                return self.updateIMU(q, gyr, acc)"),
  ('c13_ekf_zero_acc_nan', 'C13', 'ahrs/filters/ekf.py', "        if a_norm == 0:\n            return q\n", "        if a_norm < 0:\n            return q\n"),
  ('c13_roleq_guard_and', 'C13', 'ahrs/filters/roleq.py', "        if not a_norm > 0 or not m_norm > 0:", "        if not a_norm > 0 and not m_norm > 0:"),
- ('c05_mahony_ki_sign', 'C05', 'ahrs/filters/mahony.py', "            omega_mes = np.cross(a, v_a) + np.cross(m, v_m)\n            bDot = -self.k_I*omega_mes", "            omega_mes = np.cross(a, v_a) + np.cross(m, v_m)\n            bDot = self.k_I*omega_mes"),
  ('c05_ekf_enu_aref', 'C05', 'ahrs/filters/ekf.py', "        self.a_ref = np.array([0.0, 0.0, 1.0]) if frame.upper() == 'NED' else np.array([0.0, 0.0, -1.0])", "        self.a_ref = np.array([0.0, 0.0, 1.0])"),
- ('c05_aqua_marg_lerp_only', 'C05', 'ahrs/filters/aqua.py', "    if q[0] > t:\n", "    if q[0] > t or ratio < 0.05:\n"),
- ('c03_mahony_no_renorm', 'C03', 'ahrs/filters/mahony.py', "        q += qDot*dt                                            # (eq. 13)\n        q /= np.linalg.norm(q)\n        return q\n\n    def updateMARG", "        q += qDot*dt                                            # (eq. 13)\n        return q\n\n    def updateMARG"),
  ('c03_tilt_angles_rotmat', 'C03', 'ahrs/filters/tilt.py', "        Q[:, 3] = sy*cp*cr - cy*sp*sr", "        Q[:, 3] = sy*cp*cr - cy*sp*sp"),
- ('c08_closed_half_angle', 'C08', 'ahrs/filters/angular.py', "            A = np.cos(w*dt/2.0)*np.eye(4) + np.sin(w*dt/2.0)*Omega/w", "            A = np.cos(w*dt/2.0)*np.eye(4) + np.sin(w*dt/2.0)*Omega/max(w, 1e-2)"),
  ('c08_series_factorial', 'C08', 'ahrs/filters/angular.py', "                A += np.linalg.matrix_power(S, i) / factorial(i)", "                A += np.linalg.matrix_power(S, i) / max(i, 1) if i < 4 else np.linalg.matrix_power(S, i) / factorial(i)"),
  ('c08_mahony_dr_bias', 'C08', 'ahrs/filters/mahony.py', "        Omega = np.copy(gyr)\n        a_norm = np.linalg.norm(acc)\n        if a_norm > 0:\n            R = q.to_DCM()\n            v_a = R.T@np.array([0.0, 0.0, 1.0])     # Expected Earth's gravity\n            # ECF", "        Omega = np.copy(gyr) - self.b\n        a_norm = np.linalg.norm(acc)\n        if a_norm > 0:\n            Omega = np.copy(gyr)\n            R = q.to_DCM()\n            v_a = R.T@np.array([0.0, 0.0, 1.0])     # Expected Earth's gravity\n            # ECF"),
- ('c12_slerp_nan_weights', 'C12', 'ahrs/common/quaternion.py', "t_array=np.linspace(0, 1, interval[1]-interval[0]+3)[1:-1])", "t_array=np.linspace(0, 1, interval[1]-interval[0]+2, endpoint=False)[1:])"),
  ('c12_slerp_long_arc', 'C12', 'ahrs/common/quaternion.py', "    if qdot < 0.0:\n        q *= -1.0\n        qdot *= -1.0\n    # Interpolate linearly (LERP)", "    if qdot < -0.5:\n        q *= -1.0\n        qdot *= -1.0\n    # Interpolate linearly (LERP)"),
  ('c15_wmm_cache_coeffs', 'C15', 'ahrs/utils/wmm.py', "        file_data = pkgutil.get_data(__name__, cof_file).decode()", "        if getattr(self, '_loaded_cof', None) == cof_file and hasattr(self, 'c'):\n            return\n        self._loaded_cof = cof_file\n        file_data = pkgutil.get_data(__name__, cof_file).decode()"),
- ('c15_wmm_gv_south', 'C15', 'ahrs/utils/wmm.py', "        if self.latitude < -55.0:\n            self.GV += self.longitude", "        if self.latitude < -55.0:\n            self.GV += longitude"),
  ('c19_q2euler_inplace', 'C19', 'ahrs/common/orientation.py', "    q = q / np.linalg.norm(q)\n    Q = np.array([\n        [q[0], -q[1], -q[2], -q[3]],\n        [q[1],  q[0], -q[3],  q[2]],", "    q *= 1.0 / np.linalg.norm(q)\n    Q = np.array([\n        [q[0], -q[1], -q[2], -q[3]],\n        [q[1],  q[0], -q[3],  q[2]],"),
- ('c19_ekf_noises_inplace', 'C19', 'ahrs/filters/ekf.py', "        default_noises = np.copy(default_noises)\n", "        default_noises = np.asarray(default_noises, dtype=float)\n        default_noises **= 1.0\n"),
+ ('c05_mahony_ki_sign', 'C05', 'ahrs/filters/mahony.py', "            omega_mes = np.cross(a, v_a) + np.cross(m, v_m) # Cost function (eqs. 32c and 48a)\n            bDot = -self.k_I*omega_mes", "            omega_mes = np.cross(a, v_a) + np.cross(m, v_m) # Cost function (eqs. 32c and 48a)\n            bDot = self.k_I*omega_mes"),
+ ('c05_aqua_lerp_small_gain', 'C05', 'ahrs/filters/aqua.py', "    if q[0] > t:  # LERP\n", "    if q[0] > t or ratio < 0.05:  # LERP\n"),
+ ('c03_mahony_imu_no_renorm', 'C03', 'ahrs/filters/mahony.py', "            Omega = Omega - self.b + self.k_P*omega_mes  # Gyro correction\n        p = np.array([0.0, *Omega])\n        qDot = 0.5*q.product(p)                     # Rate of change of quaternion (eqs. 45 and 48b)\n        q += qDot*dt                                # Update orientation\n        q /= np.linalg.norm(q)                      # Normalize Quaternion (Versor)\n        return q\n\n    def updateMARG", "            Omega = Omega - self.b + self.k_P*omega_mes  # Gyro correction\n        p = np.array([0.0, *Omega])\n        qDot = 0.5*q.product(p)                     # Rate of change of quaternion (eqs. 45 and 48b)\n        q += qDot*dt                                # Update orientation\n        return q\n\n    def updateMARG"),
+ ('c12_slerp_nan_weights', 'C12', 'ahrs/common/quaternion.py', "                t_array=np.linspace(0, 1, interval[1]-interval[0]+3)[1:-1]", "                t_array=np.linspace(0, 1, interval[1]-interval[0]+2, endpoint=False)[1:]"),
+ ('c08_closed_small_angle_shortcut', 'C08', 'ahrs/filters/angular.py', "            A = np.cos(w*dt/2.0)*np.eye(4) + np.sin(w*dt/2.0)*Omega/w", "            A = np.cos(w*dt/2.0)*np.eye(4) + np.sin(w*dt/2.0)*Omega/w if w*dt > 1e-3 else np.eye(4) + 0.5*dt*Omega"),
+ ('c15_wmm_enu_history', 'C15', 'ahrs/utils/wmm.py', "        if self.frame.upper() == 'ENU':\n            self.X, self.Y, self.Z = ned2enu([self.X, self.Y, self.Z])", "        if self.frame.upper() == 'ENU' and not getattr(self, '_enu_done', False):\n            self._enu_done = True\n            self.X, self.Y, self.Z = ned2enu([self.X, self.Y, self.Z])"),
+ ('c19_tilt_normalises_input', 'C19', 'ahrs/filters/tilt.py', ["        acc = np.copy(acc)\n        a_norm = np.linalg.norm(acc)\n        if a_norm == 0:\n            raise ValueError(\"Gravitational acceleration must be non-zero\")\n        ax, ay, az = acc/a_norm"], ["        acc = np.asarray(acc, dtype=float)\n        a_norm = np.linalg.norm(acc)\n        if a_norm == 0:\n            raise ValueError(\"Gravitational acceleration must be non-zero\")\n        acc /= a_norm\n        ax, ay, az = acc"]),
 ]
 
 def main():
@@ -40,10 +40,16 @@ def main():
             raw = open(p, 'rb').read()
             crlf = b'\r\n' in raw
             s = raw.decode()
-            o, n = (old.replace('\n', '\r\n'), new.replace('\n', '\r\n')) if crlf else (old, new)
-            if s.count(o) != 1:
-                print('SKIP', name, 'anchor count', s.count(o)); continue
-            open(p, 'wb').write(s.replace(o, n).encode())
+            olds, news = (old, new) if isinstance(old, list) else ([old], [new])
+            bad = False
+            for o_, n_ in zip(olds, news):
+                o, n = (o_.replace('\n', '\r\n'), n_.replace('\n', '\r\n')) if crlf else (o_, n_)
+                if s.count(o) != 1:
+                    print('SKIP', name, 'anchor count', s.count(o)); bad = True; break
+                s = s.replace(o, n)
+            if bad:
+                continue
+            open(p, 'wb').write(s.encode())
             d = subprocess.run(['git', '-C', wt, 'diff', '--', rel], capture_output=True).stdout
             open(os.path.join(OUT, f'{name}.patch'), 'wb').write(d)
             subprocess.run(['git', '-C', wt, 'checkout', '--', '.'], check=True)
